@@ -11,6 +11,7 @@ import (
 	"context"
 	"encoding/json"
 	"fmt"
+	"github.com/ogen-go/ogen/middleware"
 	"hash/fnv"
 	"net/http"
 	"net/http/httptest"
@@ -21,6 +22,7 @@ import (
 	"runtime"
 	"sort"
 	"sync"
+	"sync/atomic"
 	"testing"
 
 	"pgregory.net/rapid"
@@ -186,7 +188,14 @@ func concPackage(u *vk.Unit, p *reg.Package, meta Meta, pkg string) {
 			}
 			return []any{pool[hashStr(r)%uint64(len(pool))]}, nil
 		})
-		srv, err := p.NewServer(reg.ServerConfig{Call: call})
+		// three pass-through middlewares chained by ogen's own ChainMiddlewares (what WithMiddleware(a, b, c)
+		// does): the chain is shared by all requests in flight
+		var mwCalls atomic.Int64
+		pass := func(req middleware.Request, next middleware.Next) (middleware.Response, error) {
+			mwCalls.Add(1)
+			return next(req)
+		}
+		srv, err := p.NewServer(reg.ServerConfig{Call: call, Middleware: middleware.ChainMiddlewares(pass, pass, pass)})
 		if err != nil {
 			return nil, nil, err
 		}
